@@ -704,7 +704,7 @@ class Engine:
             elif isinstance(e, dict) and "idx" in e:
                 fr = st.frames[-1]
                 iv = st.store.get((fr.fid, e["idx"]))
-                et = self.types[tid].get("elem")
+                et = self.types[tid].get("elem") if tid is not None else (self.types[v.tid].get("elem") if isinstance(v, Arr) and v.tid is not None else None)
                 c = self.const_of(st, iv) if iv is not None else None
                 if isinstance(v, Arr) and c is not None and 0 <= c < len(v.els):
                     v = v.els[c]
@@ -712,7 +712,7 @@ class Engine:
                     v = self.fresh(et, ("index", self.term(v), self.term(iv)))
                 tid = et
             elif isinstance(e, dict) and "cidx" in e:
-                et = self.types[tid].get("elem")
+                et = self.types[tid].get("elem") if tid is not None else (self.types[v.tid].get("elem") if isinstance(v, Arr) and v.tid is not None else None)
                 if isinstance(v, Arr) and not e["from_end"] and e["cidx"] < len(v.els):
                     v = v.els[e["cidx"]]
                 else:
